@@ -104,6 +104,24 @@ def evaluate(call, keep=None):
                 except Exception as e:  # noqa
                     obs.append(['exc', type(e).__name__])
             return ['ok', obs]
+        if kind == 'construct_kw':
+            # keyword construction / pack / Dtype.build with values that are equal as cache keys but not the same (0.0, -0.0, 0, False; 1, 1.0, True)
+            _, cname, name, length, vj, how = call
+            v = {'f': lambda x: float.fromhex(x), 'i': int, 'b': bool}[vj[0]](vj[1])
+            if how == 'kw':
+                o = getattr(bs, cname)(**{name: v}, length=length) if length is not None else getattr(bs, cname)(**{name: v})
+            elif how == 'pack':
+                o = bs.pack(name if length is None else f'{name}:{length}', v)
+            elif how == 'build':
+                o = bs.Dtype(name, length).build(v) if length is not None else bs.Dtype(name).build(v)
+            elif how == 'array':
+                o = bs.Array(bs.Dtype(name, length) if length is not None else bs.Dtype(name), [v]).data
+            else:
+                o = bs.BitArray(length or 8)
+                setattr(o, name if length is None else f'{name}{length}', v)
+            if keep is not None:
+                keep.append(o)
+            return ['ok', o.bin]
         if kind == 'read_dtype':
             # read / peek with a Dtype OBJECT (possibly without a length, possibly scaled)
             _, bits, token, length, scale, how = call
@@ -367,6 +385,37 @@ def frag_call_st(draw):
 SCALES = [None, None, 2, 4, 0.5, 2.0]
 
 
+EQUAL_KEYS = [[['f', (0.0).hex()], ['f', (-0.0).hex()], ['i', 0], ['b', False]], [['f', (1.0).hex()], ['i', 1], ['b', True]], [['f', (2.0).hex()], ['i', 2]],
+              [['f', (-1.0).hex()], ['i', -1]], [['f', (3.0).hex()], ['i', 3]]]
+
+
+@st.composite
+def kw_value_call_st(draw):
+    group = draw(st.sampled_from(EQUAL_KEYS))
+    name, length = draw(st.sampled_from([('float', 16), ('float', 32), ('float', 64), ('floatle', 32), ('bfloat', None), ('int', 8), ('uint', 8), ('e4m3mxfp', None), ('p4binary', None),
+                                         ('mxint', None), ('e5m2mxfp', None), ('se', None), ('bool', None), ('uintle', 16)]))
+    return ['construct_kw', draw(st.sampled_from(CLASSES)), name, length, draw(st.sampled_from(group)), draw(st.sampled_from(['kw', 'pack', 'build', 'array', 'setattr']))]
+
+
+@st.composite
+def equal_keys_st(draw, tier):
+    """the same construction with values that compare equal (0.0, -0.0, 0, False ...) one after the other"""
+    steps = []
+    for _ in range(draw(st.integers(2, 8))):
+        c = draw(kw_value_call_st())
+        steps.append(['call', c])
+        if draw(st.booleans()):
+            c2 = list(c)
+            grp = next(g for g in EQUAL_KEYS if c[4] in g)
+            c2[4] = draw(st.sampled_from(grp))
+            if draw(st.booleans()):
+                c2[5] = draw(st.sampled_from(['kw', 'pack', 'build', 'array', 'setattr']))
+            steps.append(['call', c2])
+        if draw(st.integers(0, 4)) == 0:
+            steps.append(['mutate', 0, draw(st.sampled_from(['invert', 'append', 'set0']))])
+    return {'steps': steps}
+
+
 @st.composite
 def dtype_obj_call_st(draw):
     """the same few dtypes as Dtype objects with different scales, with and without a length, in read / peek / unpack / readlist / peeklist"""
@@ -394,6 +443,8 @@ def call_st(draw):
         token = draw(st.sampled_from(['uint8', 'float16', 'int12', 'e4m3mxfp', 'uint', 'u8', 'mxint', 'hex']))
         length = 8 if token in ('uint', 'hex') else None
         return ['dtype_of_dtype', token, length, draw(st.sampled_from([None, None, 2, 0.5])), draw(st.sampled_from([None, 2, 4, 0.5, 1]))]
+    if k == 13 and draw(st.booleans()):
+        return draw(kw_value_call_st())
     if k == 13:
         return draw(dtype_obj_call_st())
     if k >= 14:
@@ -427,7 +478,8 @@ def call_st(draw):
         return ['array', dt, vals]
     if k == 10:
         bits = draw(bits_st(max_len=24, min_len=8))
-        return ['setattr', bits, draw(st.sampled_from(['uint8', 'e4m3mxfp', 'e5m2mxfp', 'hex', 'int12', 'float32'])), draw(st.sampled_from([3, 1000, 'ff', 1.5, -2, 60000]))]
+        return ['setattr', bits, draw(st.sampled_from(['uint8', 'e4m3mxfp', 'e5m2mxfp', 'hex', 'int12', 'float32', 'ue', 'se', 'uie', 'sie', 'mxint', 'bfloat', 'p3binary', 'e2m1mxfp', 'bool'])),
+                draw(st.sampled_from([3, 1000, 'ff', 1.5, -2, 60000, 0, 1, 5]))]
     if draw(st.booleans()):
         return ['derive', draw(st.sampled_from(DERIVES)), draw(st.sampled_from(HOT)), draw(st.sampled_from(CLASSES))]
     return ['pp', draw(bits_st(max_len=40, min_len=8)), draw(st.sampled_from(['bin', 'hex', 'bin8, hex', 'oct6', 'hex4']))]
@@ -472,6 +524,23 @@ def literal_sharing_st(draw, tier):
         steps.append(['call', [draw(st.sampled_from(['construct', 'fromstring'])), draw(st.sampled_from(CLASSES)), lit]])
         if draw(st.booleans()):
             steps.append(['call', ['derive', draw(st.sampled_from(DERIVES)), lit, draw(st.sampled_from(CLASSES))]])
+    return {'steps': steps}
+
+
+@st.composite
+def setter_sharing_st(draw, tier):
+    """a value assigned through a property of a mutable object, that object edited in place, then the same value built again by other means"""
+    name, vals = draw(st.sampled_from([('ue', [0, 1, 3, 5, 12]), ('se', [0, 1, -2, 3]), ('uie', [0, 2, 5]), ('sie', [-1, 2]), ('e4m3mxfp', [1.5, 1000, 3]), ('mxint', [1.5, 0.5]),
+                                        ('uint8', [3, 5, 255]), ('bfloat', [1.5, 3]), ('bool', [1, 0]), ('hex', ['ff', 'a5'])]))
+    v = draw(st.sampled_from(vals))
+    steps = []
+    for _ in range(draw(st.integers(1, 3))):
+        steps.append(['call', ['setattr', draw(bits_st(max_len=16, min_len=8)), name, v]])
+        steps.append(['mutate', 0, draw(st.sampled_from(['invert', 'append', 'set0', 'reverse', 'clear']))])
+        text = f'{name}={v}'
+        steps.append(['call', [draw(st.sampled_from(['construct', 'fromstring'])), draw(st.sampled_from(CLASSES)), text]])
+        if name in ('ue', 'se', 'uie', 'sie', 'uint8', 'bool') and draw(st.booleans()):
+            steps.append(['call', ['pack', name.replace('uint8', 'uint:8'), [v], {}]])
     return {'steps': steps}
 
 
@@ -606,7 +675,7 @@ def run(case):
             if key not in seen and first in first_items:
                 nt = True      # a format sharing its first item (cache key of the parser) with an earlier, different call
             first_items.add(first)
-        if call[0] == 'dtype_of_dtype':
+        if call[0] in ('dtype_of_dtype', 'construct_kw'):
             nt = nt or len(history) > 0
         if key not in seen:
             distinct_keys += 1
@@ -619,8 +688,10 @@ def run(case):
 
 SUBCHECKS = [
     Sub('C09.string_cache_options_and_mutation', run, strategy=focused_options_st, examples={'quick': 1500, 'thorough': 20000}),
+    Sub('C09.setter_sharing', run, strategy=setter_sharing_st, examples={'quick': 1000, 'thorough': 15000}),
     Sub('C09.literal_sharing', run, strategy=literal_sharing_st, examples={'quick': 1500, 'thorough': 20000}),
     Sub('C09.format_cache', run, strategy=format_focus_st, examples={'quick': 1500, 'thorough': 20000}),
+    Sub('C09.equal_but_different_values', run, strategy=equal_keys_st, examples={'quick': 1500, 'thorough': 20000}),
     Sub('C09.dtype_cache', run, strategy=dtype_focus_st, examples={'quick': 800, 'thorough': 10000}),
     Sub('C09.history', run, strategy=history_st, examples={'quick': 500, 'thorough': 6000}),
 ]
